@@ -122,6 +122,7 @@ func traceStrings(i *ids, log []entry) []string {
 
 func analyse(sc Scenario, out *outcome, drv *lib.Driver) *caseResult {
 	cr := &caseResult{sc: sc, out: out, hits: map[string]int{}}
+	cr.key = fmt.Sprintf("%s/%d/%v/%d", sc.Kind, sc.Seed, sc.DstNew, sc.Procs)
 	if out.skipped {
 		cr.hits["skipped-after-hangs"]++
 		cr.key = "skipped"
@@ -701,6 +702,17 @@ func revertCause(before []entry, x entry) (string, string) {
 	}
 	if lie >= 0 {
 		return "lying-latest-header", fmt.Sprintf("number %d, %s", before[lie].Num, before[lie].Fault)
+	}
+	// a latest header at or below x since the last store could have started the task: then the
+	// successor explanation is not the only one, and the revert stays unexplained (generic signature)
+	for i := len(before) - 1; i >= 0; i-- {
+		e := before[i]
+		if e.Kind == eStored || e.Kind == eRestart {
+			break
+		}
+		if e.Kind == eLatest && e.Num <= x.Num {
+			return "", ""
+		}
 	}
 	if staleSuccessor(before, x) {
 		return "stale-successor", ""
